@@ -28,9 +28,12 @@
    C11_vstack_refuse / C11_hstack_refuse / C11_dstack_refuse, C11_vstack_rank1_ragged): operands of different rank, inputs that differ off the joined axis, inputs of different
    shapes for stack, different row counts for column_stack are answered with an error value, never joined.
    C11_dstack_vectors — n vectors of one length l give the 1 x l x n array whose entry (0, j, k) is element j of input k.
-   NOT YET PROVED (checked by the correspondence run): the promotion of rank-0 / mixed-rank inputs by hstack / dstack,
-   and splits producing empty blocks (parts > axis length). *)
-From ArrRs Require Import Index Axis Split Join Join_proofs Broadcast_proofs Axis_proofs Split_proofs Append_proofs Stack_proofs Join_refuse.
+   C11_dstack_promote / C11_hstack_promote / C11_promoted_shape — inputs of rank 0 or of MIXED rank: hstack / dstack
+   give what they give on the inputs raised to rank 2 / 3; every raised input has that rank, its elements unchanged,
+   and the stated shape ([d] -> [1, d] resp. [1, d, 1]; [d0, d1] -> [d0, d1, 1]), so the theorems for inputs of
+   sufficient rank apply to the raised list.
+   NOT YET PROVED (checked by the correspondence run): splits producing empty blocks (parts > axis length). *)
+From ArrRs Require Import Index Axis Split Join Join_proofs Broadcast_proofs Axis_proofs Split_proofs Append_proofs Stack_proofs Join_refuse Promote_proofs.
 
 Theorem C11_split_sizes : forall n parts, 0 < parts ->
   length (section_sizes n parts) = parts /\
@@ -231,6 +234,32 @@ Theorem C11_dstack_vectors : forall (T : Type) (d : T) l (first : arr T) rest,
     forall j k, j < l -> k < length (first :: rest) ->
       get d R [0; j; k] = nth j (elems (nth k (first :: rest) first)) d.
 Proof. exact @dstack_vectors. Qed.
+
+(* inputs of MIXED rank: hstack / dstack act on the inputs raised to rank 2 / 3, which keep their elements — the
+   theorems above (concatenation along axis 1 / 2 for inputs of sufficient rank) then apply to the promoted list *)
+Theorem C11_dstack_promote : forall (T : Type) (d : T) (l l3 : list (arr T)),
+  mapM (fun a => atleast a 3) l = Ok l3 ->
+  dstack d l = dstack d l3 /\ Forall (fun a => 3 <= ndim a) l3 /\ Forall2 (fun a r => elems r = elems a) l l3.
+Proof. exact @dstack_promote. Qed.
+
+Theorem C11_hstack_promote : forall (T : Type) (d : T) strict (l l2 : list (arr T)),
+  forallb (fun a : arr T => ndim a =? 1) l = false -> mapM (fun a => atleast a 2) l = Ok l2 ->
+  hstack_gen d strict l = hstack_gen d strict l2 /\ Forall (fun a => 2 <= ndim a) l2 /\ Forall2 (fun a r => elems r = elems a) l l2.
+Proof. exact @hstack_promote. Qed.
+
+Theorem C11_promoted_shape : forall (T : Type) (a r : arr T) k, k = 2 \/ k = 3 -> atleast a k = Ok r ->
+  k <= ndim r /\ elems r = elems a /\
+  shape r = (if k <=? ndim a then shape a else
+             match k, shape a with
+             | 2, [] => [1; 1] | 2, x :: _ => [1; x]
+             | _, [] => [1; 1; 1] | _, [x] => [1; x; 1] | _, x0 :: x1 :: _ => [x0; x1; 1]
+             end).
+Proof. exact @atleast_promoted. Qed.
+
+Example C11_promote_nonvacuous :
+  dstack 0%Z [mk [1;2]%Z [2]; mk [3;4]%Z [1;2]; mk [5;6]%Z [1;2;1]] = Ok (mk [1;3;5;2;4;6]%Z [1;2;3]) /\
+  hstack_spec 0%Z [mk [1;2]%Z [2]; mk [3;4;5]%Z [1;3]] = Ok (mk [1;2;3;4;5]%Z [1;5]).
+Proof. split; vm_compute; reflexivity. Qed.
 
 Example C11_stack_nonvacuous :
   stack 0%Z [mk [1;2;3;4;5;6]%Z [2;3]; mk [7;8;9;10;11;12]%Z [2;3]] (Some 1) =
